@@ -1433,8 +1433,8 @@ def _organize_rule(ctx, rep, r):
     for o in rebinds:
         facts = shared.rebind_facts(prog, o)
         if facts['kind'] in ('superset', 'filtered'):
-            t = facts['table']
-            okq = bool(t[(True, False)] and t[(True, True)])
+            t, k = facts['table'], facts.get('table_queued', facts['table'])
+            okq = bool(t[(True, False)] and t[(True, True)] and k[(True, False)] and k[(True, True)])
             det = facts['detail']
         else:
             okq, det = False, facts['detail']
